@@ -457,6 +457,19 @@ pub fn run(a: &Args) {
             }
         } }
     } }
+    // text fields are NUL-terminated strings: what a peer leaves behind the terminator (a reused buffer) is not part of the text
+    for sp in spec.structs.iter() { for (i, f) in sp.fields.iter().enumerate() { if let K::Text(n) = f.k { if n >= 8 { for compressed in [true, false] {
+        let mut v = b"Zq\0Zqresidue-residue-residue-residue".to_vec(); v.truncate(n);
+        let mut asg = Asg { fixed: BTreeMap::new(), rows: match sp.tail { Tail::Arr { .. } => vec![BTreeMap::new()], _ => vec![] }, text: vec![], words: vec![] };
+        let _ = asg.fixed.insert(i, Val::T(v));
+        let Some(fr) = build(sp, &asg, &spec, compressed) else { continue };
+        st.evaluations += 1; st.bump("vectors:text followed by residue");
+        let id = format!("{} {}", mode_tag(compressed), hex(&fr));
+        match decode_buf(compressed, &fr) {
+            Dec::Got(p, _) => { let d = format!("{:?}", p); obs.checked += 1; if !d.contains("\"Zq\"") || d.contains("Zqres") { st.fail(format!("[C02 {}] {} = \"Zq\" NUL residue: the decoded packet shows {}", sp.name, f.spath, d.chars().take(160).collect::<String>()), id); } },
+            d => st.fail(format!("[C02 {}] a frame whose {} holds a text, its NUL and residue is not decoded: {}", sp.name, f.spath, crate::wire::cls_string(&d)), id),
+        }
+    } } } } }
     // RaceLaps in IS_STA / IS_RST, every byte value.  InSim.txt: "RaceLaps (rl): (0 = practice) (1-99: 1-99 laps) (100-190: 100-1000 laps,
     // laps = (rl - 100) * 10 + 100) (191-238: 1-48 hours, hours = rl - 190)"; 239..255 are not assigned (only required to decode)
     for sname in ["IS_STA", "IS_RST"] { if let Some(sp) = spec.structs.iter().find(|x| x.name == sname) {
